@@ -24,6 +24,12 @@ fn main() {
     if args.len() < 3 {
         usage();
     }
+    if args[1] == "c15obs" {
+        let pi: usize = args[2].parse().unwrap();
+        engine::quiet_panics();
+        println!("{}", props::c15::obs_line(&props::c15::observe(pi)));
+        return;
+    }
     if args[1] == "run" {
         // mmv run <vm|wasm|both> <src-or-file> <n> [sched]   (ad-hoc debugging aid)
         let src = if std::path::Path::new(&args[3]).exists() { std::fs::read_to_string(&args[3]).unwrap() } else { args[3].clone() };
